@@ -67,6 +67,7 @@ pub struct FullWorld {
     pub panics: Vec<String>,
     pub hung: Option<String>,
     pub steps: usize,
+    pub choice_log: Vec<(usize, usize, usize, bool)>,
 }
 
 pub fn tracker_body(peers: &[&PeerCfg]) -> Vec<u8> {
@@ -140,16 +141,23 @@ impl FullWorld {
             panics: vec![],
             hung: None,
             steps: 0,
+            choice_log: vec![],
         };
-        w.run_step(None);
+        w.run_step(None, &[]);
         w
     }
 
     pub fn step(&mut self, ev: &FEv) {
-        self.run_step(Some(ev));
+        self.run_step(Some(ev), &[]);
     }
 
-    fn run_step(&mut self, ev: Option<&FEv>) {
+    /// One event with scripted tie-break digits; the choice points met are left in `choice_log`.
+    pub fn step_with(&mut self, ev: &FEv, digits: &[usize]) {
+        self.run_step(Some(ev), digits);
+    }
+
+    fn run_step(&mut self, ev: Option<&FEv>, digits: &[usize]) {
+        rdest::verif::set_choices(digits.to_vec());
         for p in self.peers.iter_mut() {
             if let Some(c) = p.conn.as_mut() {
                 c.new_from = c.msgs.len();
@@ -189,6 +197,9 @@ impl FullWorld {
         if let Err(p) = res {
             self.hung = Some(format!("harness step panicked: {}", p));
         }
+        let groups = rdest::verif::take_choice_groups();
+        let log = rdest::verif::take_choice_log();
+        self.choice_log = log.iter().zip(groups.iter()).map(|(l, g)| (l.0, l.1, g.0, g.1)).collect();
         if let Some(p) = core::take_last_panic() {
             self.panics.push(p);
         }
